@@ -876,6 +876,8 @@ fn main() {
         }
         *cur.lock().unwrap_or_else(|e| e.into_inner()) = case.clone();
         beat.fetch_add(1, Ordering::Relaxed);
+        // lets the caller name the program that was running if the process dies (heap corruption, abort)
+        println!("{}", json!({"type": "case", "i": idx}));
         let problems = std::cell::RefCell::new(vec![]);
         let r = catch_unwind(AssertUnwindSafe(|| run_case(&cfg, &case, idx, &beat, &problems)));
         rep.cases += 1;
